@@ -369,6 +369,16 @@ def check(rep, F, tier, replay=None):
         for f_ in sorted(cf_ - jf_):
             rep.violation("JSON-fields", "%s.%s" % (adt_.rsplit("::", 1)[-1], f_), "the CBOR writer of %s reads `%s` but the derived JSON form does not carry it (skipped): a value whose `%s` was set through the API comes back from JSON with the default and serialises to different bytes (different hash)" % (adt_.rsplit("::", 1)[-1], f_, f_), {})
     rep.floor("structs with derived JSON form and CBOR writer", 80, n_jf)
+    # KEY-int: an integer map key has a JSON key for every Int
+    rep.rule("KEY-int", "the metadata -> JSON key conversion (decode_key) turns an Int key into its decimal string without a fallible narrowing to i64 (TryFrom<i128> for i64): JSON keys are strings, and every key the JSON -> metadata direction can produce (any decimal within the Int range) must convert back")
+    dk_ = [f for f in F.fns if f.endswith("::decode_key") and "metadata" in f and "/tests/" not in F.fns[f]["file"]]
+    if len(dk_) != 1:
+        rep.lost("metadata decode_key not found (%d)" % len(dk_))
+    else:
+        rep.inst("KEY-int")
+        narrow_ = sorted({(c.to or "") for sub in [dk_[0]] + [x for x in F.fns if x.startswith(dk_[0] + "::{closure")] for c in F.calls(sub) if re.search(r"TryFrom<i128> for i64>::try_from$", c.to or "") or re.search(r"TryFrom<i128>>::try_from$", c.to or "") and "i64" in (c.to or "") or re.search(r"<i128 as std::convert::TryInto<i64>>::try_into$", c.to or "")})
+        if narrow_:
+            rep.violation("KEY-int", "decode_key|%s" % ",".join(H.short(x) for x in narrow_)[:80], "decode_key narrows an Int key with %s: {\"-9223372036854775809\": 1} (BasicConversions) becomes the Int key -9223372036854775809, and converting back fails with `out of range integral type conversion attempted` - JSON in normal form does not survive JSON -> metadata -> JSON" % ", ".join(H.short(x) for x in narrow_), {})
     # CONV-iter: converters do not swallow elements or errors
     rep.rule("CONV-iter", "the metadata / datum JSON converters and the chunked-bytes helpers (protocol_types/metadata.rs, protocol_types/plutus/plutus_data.rs) use no element- or error-dropping adaptor (filter / filter_map / flat_map / flatten over fallible items, take / skip / find, Result::ok / unwrap_or*) outside the audited inventory: an element outside the schema produces an error, it is not skipped")
     CONV_OK = {
